@@ -16,7 +16,7 @@ import (
 func init() {
 	Register(&Property{
 		ID: "C07",
-		Explanation: "Decides that the keyset pagination mechanics are self-consistent: (R07.1) in GetRelationTuples the ORDER BY column, the column of the strict '>' cursor predicate and the db tag of the field the next token is taken from are the same unique column, the order is ascending, LIMIT is exactly the has-more threshold plus one, the has-more test compares len(rows) with that same threshold, truncation removes exactly one row and the token comes from the last kept row, assigned only in that branch; (R07.2) the same agreement for the traversal's internal paging; (R07.3) page size 0 means the default, a negative page size is rejected, an empty token is the zero cursor; (R07.4) a malformed token (and page size) is a 4xx status-carrying error on every path; (R07.6) the chunked look-up that maps a page's ids back to strings advances by exactly the chunk it resolves, so no row of a page comes back with unresolved names; (R07.5) the internal consumers (expand, tuple-to-subject-set check) feed the token returned by one call into the next and leave the loop only on an empty token, an error or a finished group. " +
+		Explanation: "Decides that the keyset pagination mechanics are self-consistent: (R07.1) in GetRelationTuples the ORDER BY column, the column of the strict '>' cursor predicate and the db tag of the field the next token is taken from are the same unique column, the order is ascending, LIMIT is exactly the has-more threshold plus one, the has-more test compares len(rows) with that same threshold, truncation removes exactly one row and the token comes from the last kept row, assigned only in that branch; (R07.2) the same agreement for the traversal's internal paging; (R07.3) page size 0 means the default, a negative page size is rejected, an empty token is the zero cursor; (R07.4) a malformed token (and page size) is a 4xx status-carrying error on every path; (R07.8) GetRelationTuples executes exactly one statement per page (nothing validates the token against rows that may have been deleted); (R07.7) on the list paths the page-token option is built under no condition other than tests of the token itself and earlier error returns; (R07.6) the chunked look-up that maps a page's ids back to strings advances by exactly the chunk it resolves, so no row of a page comes back with unresolved names; (R07.5) the internal consumers (expand, tuple-to-subject-set check) feed the token returned by one call into the next and leave the loop only on an empty token, an error or a finished group. " +
 			"Not decided: behaviour under concurrent writes beyond what the strict '>' on a unique, immutable key implies; that shard_id is unique (primary key in the migrations, trusted).",
 		Assumptions: []string{
 			"(nid, shard_id) is the primary key of keto_relation_tuples (migrations)",
@@ -286,6 +286,7 @@ func runC07(c *Ctx) {
 			// that is control dependent on len(V) == L (a full page), in either branch polarity
 			tfd := core.FuncDecl(m.Pkg, "Traverser.TraverseSubjectSetExpansion")
 			contOK := false
+			cursorField := ""
 			if tfd != nil && limE != nil && curE != nil {
 				ast.Inspect(tfd.Body, func(n ast.Node) bool {
 					as, ok := n.(*ast.AssignStmt)
@@ -316,10 +317,24 @@ func runC07(c *Ctx) {
 						full := (isLenOf(info, x, v) && sameExpr(info, y, limE)) || (isLenOf(info, y, v) && sameExpr(info, x, limE))
 						if full && (op == token.EQL || op == token.GEQ) {
 							contOK = true
+							cursorField = se.Sel.Name
 						}
 					}
 					return true
 				})
+			}
+			if contOK {
+				// the field the next cursor is read from must be a column the SELECT returns
+				col := m.ColOfField[cursorField]
+				returned := false
+				for _, it := range st.Selects {
+					if it.Alias == col || (it.Alias == "" && core.BaseColumn(it.Expr) == col) {
+						returned = true
+					}
+				}
+				if col == "" || !returned {
+					bad = append(bad, fmt.Sprintf("the next cursor is read from field %s (column %q), which the SELECT does not return: the cursor never advances and the same page is fetched forever", cursorField, col))
+				}
 			}
 			if !contOK {
 				bad = append(bad, fmt.Sprintf("no continuation 'if len(rows) == %s { %s = rows[%s-1].ID }': the next page does not start after the last row fetched", limArg, arg, limArg))
@@ -335,6 +350,8 @@ func runC07(c *Ctx) {
 	r075(c, "R07.5")
 	// R07.6 a page is mapped back to strings completely (same rule as R16.6)
 	strideMatchesChunk(c, "R07.6")
+	tokenAlwaysForwarded(c, "R07.7")
+	onePageOneStatement(c, "R07.8")
 }
 
 func isStringT2(t types.Type) bool {
@@ -783,11 +800,40 @@ func r075(c *Ctx, rule string) {
 					case *ssa.Convert:
 						return variant(x.X, d+1)
 					case *ssa.Call:
-						return false // judged by the classes below
+						if bi, ok := x.Call.Value.(*ssa.Builtin); ok && (bi.Name() == "len" || bi.Name() == "cap") {
+							return variant(x.Call.Args[0], d+1)
+						}
+						return false // other calls are judged by the classes below
 					case *ssa.Extract:
 						return false
 					}
 					return false
+				}
+				// a field that is stored to inside the loop changes from page to page
+				fieldStoredInLoop := func(fa *ssa.FieldAddr) bool {
+					fv := fieldVarOf(fa)
+					for _, blk := range fn.Blocks {
+						if !inCycle(blk) {
+							continue
+						}
+						for _, i2 := range blk.Instrs {
+							if st, ok := i2.(*ssa.Store); ok {
+								if fa2, ok := st.Addr.(*ssa.FieldAddr); ok && fieldVarOf(fa2) == fv && fv != nil {
+									return true
+								}
+							}
+						}
+					}
+					return false
+				}
+				baseVariant := variant
+				variant = func(v ssa.Value, d int) bool {
+					if u, ok := v.(*ssa.UnOp); ok && u.Op == token.MUL {
+						if fa, ok := u.X.(*ssa.FieldAddr); ok && fieldStoredInLoop(fa) {
+							return true
+						}
+					}
+					return baseVariant(v, d)
 				}
 				for _, blk := range fn.Blocks {
 					if !inCycle(blk) || len(blk.Instrs) == 0 {
@@ -806,38 +852,50 @@ func r075(c *Ctx, rule string) {
 					if !leaves {
 						continue
 					}
-					cond := ifi.Cond
-					okExit := false
-					switch x := cond.(type) {
-					case *ssa.Call:
-						okExit = true // g.Done(), errors.Is(...)
-					case *ssa.UnOp:
-						if _, isCall := x.X.(*ssa.Call); isCall {
-							okExit = true
+					var okCond func(cond ssa.Value, d int) bool
+					okCond = func(cond ssa.Value, d int) bool {
+						if d > 4 {
+							return false
 						}
-					}
-					if _, cx, cy, isCmp := core.BinCmp(cond); isCmp && !okExit {
-						seen = map[ssa.Value]bool{}
-						switch {
-						case types.Identical(cx.Type(), types.Universe.Lookup("error").Type()) && core.IsNilConst(cy):
-							okExit = true
-						case reaches(cx) || reaches(cy):
-							okExit = true // about the page token
-						default:
-							if lc, ok := cx.(*ssa.Call); ok {
-								if bi, ok := lc.Call.Value.(*ssa.Builtin); ok && bi.Name() == "len" && listRes != nil && core.ValueOrigin(lc.Call.Args[0]) == listRes {
-									okExit = true // empty page
+						switch x := cond.(type) {
+						case *ssa.Const:
+							return true
+						case *ssa.Call:
+							return true // g.Done(), errors.Is(...)
+						case *ssa.UnOp:
+							if _, isCall := x.X.(*ssa.Call); isCall {
+								return true
+							}
+							if x.Op == token.NOT {
+								return okCond(x.X, d+1)
+							}
+						case *ssa.Phi:
+							// a short-circuit: every operand must itself be an allowed exit condition
+							for _, e := range x.Edges {
+								if !okCond(e, d+1) {
+									return false
 								}
 							}
-							if !okExit && !variant(cx, 0) && !variant(cy, 0) {
-								okExit = true // the same for every page
-							}
+							return true
 						}
+						if _, cx, cy, isCmp := core.BinCmp(cond); isCmp {
+							seen = map[ssa.Value]bool{}
+							switch {
+							case types.Identical(cx.Type(), types.Universe.Lookup("error").Type()) && core.IsNilConst(cy):
+								return true
+							case reaches(cx) || reaches(cy):
+								return true // about the page token
+							}
+							if lc, ok := cx.(*ssa.Call); ok {
+								if bi, ok := lc.Call.Value.(*ssa.Builtin); ok && bi.Name() == "len" && listRes != nil && core.ValueOrigin(lc.Call.Args[0]) == listRes {
+									return true // empty page
+								}
+							}
+							return !variant(cx, 0) && !variant(cy, 0) // the same for every page
+						}
+						return false
 					}
-					if ph, isPhi := cond.(*ssa.Phi); isPhi && !okExit {
-						_ = ph
-						okExit = true // short-circuit of the loop condition (token / done)
-					}
+					okExit := okCond(ifi.Cond, 0)
 					if !okExit {
 						bad = append(bad, fmt.Sprintf("the page loop is left at %s on a condition that changes from page to page and is neither the token, an error, an empty page nor the group being done: later pages are dropped", p.Pos(ifi.Cond.Pos())))
 					}
@@ -963,4 +1021,104 @@ func tokenEscapes(call *ssa.Call) bool {
 		return false
 	}
 	return esc(tok)
+}
+
+// ---- R07.7 a page token the client sends is always used ----------------------------------------------
+
+// tokenAlwaysForwarded: on the list paths the option that carries the page token
+// (x.WithToken(v)) is built under no condition other than tests of the token
+// value itself and earlier error returns. A token that is only honoured when
+// some other parameter is present makes "follow next_page_token" return page 1
+// forever for the requests that leave that parameter out.
+func tokenAlwaysForwarded(c *Ctx, rule string) {
+	p, r := c.P, c.R
+	n := 0
+	errT := types.Universe.Lookup("error").Type()
+	live, _ := p.KG().Live()
+	for _, rel := range []string{"internal/relationtuple", "internal/expand", "internal/check"} {
+		for _, fn := range p.KetoFuncs(rel) {
+			if !live[fn] && !live[core.Outermost(fn)] {
+				continue // test helpers that live in non-test files
+			}
+			if pk := core.FuncPkg(fn); pk != nil && strings.HasSuffix(pk.Path(), "/internal/check") && fn.Parent() != nil {
+				continue // engine page loops are judged by R07.5
+			}
+			core.Instrs(fn, func(b *ssa.BasicBlock, _ int, ins ssa.Instruction) {
+				call, ok := ins.(*ssa.Call)
+				if !ok || !core.IsCallTo(call, "WithToken") || len(call.Call.Args) != 1 {
+					return
+				}
+				if core.InLoop(b) {
+					return // an internal consumer feeding the returned token forward (R07.5)
+				}
+				n++
+				tok := core.ValueOrigin(call.Call.Args[0])
+				var bad []string
+				for _, cd := range core.CondsAt(b) {
+					_, x, y, isCmp := core.BinCmp(cd.V)
+					if !isCmp {
+						continue
+					}
+					switch {
+					case core.ValueOrigin(x) == tok || core.ValueOrigin(y) == tok:
+					case types.Identical(x.Type(), errT) && core.IsNilConst(y):
+					case core.IsNilConst(y):
+						// nil tests of the request / its parts
+					default:
+						bad = append(bad, fmt.Sprintf("it is built only if %s (%s)", cd.V.String(), p.Pos(cd.V.Pos())))
+					}
+				}
+				r.Check(len(bad) == 0, rule, core.FuncName(fn), "page token option", p.Pos(call.Pos()),
+					"the token option depends on the token value (and earlier error returns) only",
+					strings.Join(bad, "; ")+": a token sent without that other parameter is ignored and the first page is returned again")
+			})
+		}
+	}
+	if n < 1 {
+		r.Undecide(rule, "", "page token options on list paths", "", "no x.WithToken call outside the internal page loops found (floor 1)")
+	}
+}
+
+// ---- R07.8 a page is one statement ----------------------------------------------------------------------
+
+// onePageOneStatement: GetRelationTuples answers a page with a single SELECT
+// keyed by the token. A second statement on the way (validating the token
+// against the table, counting) makes the page depend on rows that other
+// requests may have deleted since the token was issued: the server's own token
+// is then rejected, or the page shifts.
+func onePageOneStatement(c *Ctx, rule string) {
+	p, r := c.P, c.R
+	root := p.Func("(*internal/persistence/sql.Persister).GetRelationTuples")
+	if root == nil {
+		r.Undecide(rule, "", "anchor GetRelationTuples", "", "not found")
+		return
+	}
+	inReach := map[*ssa.Function]bool{}
+	work := []*ssa.Function{root}
+	for len(work) > 0 {
+		f := work[0]
+		work = work[1:]
+		if inReach[f] {
+			continue
+		}
+		inReach[f] = true
+		for _, g := range core.Closures(f) {
+			inReach[g] = true
+			core.Instrs(g, func(_ *ssa.BasicBlock, _ int, ins ssa.Instruction) {
+				if ci, ok := ins.(ssa.CallInstruction); ok {
+					if sc := ci.Common().StaticCallee(); sc != nil && core.FuncPkg(sc) != nil && core.FuncPkg(sc).Path() == sqlPkgPath && !inReach[sc] {
+						work = append(work, sc)
+					}
+				}
+			})
+		}
+	}
+	var sites []string
+	for _, s := range p.StmtSites() {
+		if inReach[s.Fn] {
+			sites = append(sites, s.Callee.Name()+" at "+p.Pos(s.Call.Pos()))
+		}
+	}
+	r.Check(len(sites) == 1, rule, core.FuncName(root), "statements per page", p.Pos(root.Pos()),
+		"one page is answered by exactly one statement", fmt.Sprintf("GetRelationTuples executes %d statements per page (%s): the additional one makes the answer depend on rows outside the page (a token pointing at a row deleted meanwhile is rejected)", len(sites), strings.Join(sites, "; ")))
 }
